@@ -135,6 +135,9 @@ func (c *Chain) header(h int64) tmproto.Header {
 }
 
 func New(cfg Config) (*Chain, error) {
+	if cfg.Fishmen == nil {
+		cfg.Fishmen = []string{}
+	}
 	c := &Chain{Cfg: cfg, names: map[string]string{}, concr: map[string]string{}, Timeout: 10 * time.Second}
 	// accounts: derive, sort by bech32 address, name in that order
 	var accs []*Account
